@@ -1,5 +1,6 @@
 import Flowjaxv.Proofs.Masks
 import Flowjaxv.Proofs.MasksGen
+import Flowjaxv.Proofs.BnafGen
 /-!
 # C09 — autoregressive, coupling and block structure holds for all weights
 
@@ -479,5 +480,79 @@ theorem bnaf_instance (x0 x1 : ℝ) :
   have h0 := bnaf_jacobian _ hact 2 1 1 (by norm_num) bnafExample hsh hws none [] (by simp) [x0, x1] rfl 0 (by norm_num)
   have h1 := bnaf_jacobian _ hact 2 1 1 (by norm_num) bnafExample hsh hws none [] (by simp) [x0, x1] rfl 1 (by norm_num)
   exact ⟨fun t => h0.1 1 (by norm_num) t, h1.2⟩
+
+/-! ## ===== BEGIN BnafGen (g15): the statements on the `BlockAutoregressiveNetwork` GENERATED from the source =====
+
+`Gen/BnafGen.lean` is re-translated from `/repo/flowjax/bijections/block_autoregressive_network.py` on every run; `Proofs/BnafGen.lean`
+proves it equal to the hand model.  `BnafGenPf.netOf A act dim bd Ls ljf condLinear inverter` is `unwrap(self)` of a network with
+the layers `Ls`, ANY log-Jacobian closures `ljf` returning `L.logJac` on their own layer, activation methods `act` / `A`, any
+inverter; `condition : Option (List ℝ)` is what the method receives (`hc`: a condition is passed exactly when there is a
+`cond_linear` — what `_unwrap_check_and_cast` and the constructor guarantee). -/
+section BnafGen
+open Masks MasksPf BnafGenPf
+
+/-- **`bnaf_dependency` on the GENERATED code**: output `i` of the generated `transform` depends only on `x_0 … x_i` (and the
+condition): all raw weights, biases, raw scales, activation, dim, depth, block_dim. -/
+theorem gen_bnaf_dependency (A : ℝ → ℝ × ℝ) (act : ℝ → ℝ) (dim depth bd : Nat) (Ls : List (BnafLayer ℝ))
+    (hshapes : Ls.map (fun L => (L.b0, L.b1)) = bnafBlockShapes depth bd)
+    (ljf : BnafLayer ℝ → Bw.Linear ℝ → Bw.Blocks ℝ) (condLinear : Option (List (List ℝ)))
+    (inverter : List ℝ → Option (List ℝ) → List ℝ) (condition : Option (List ℝ)) (hc : condition.isSome = condLinear.isSome)
+    (x x' : List ℝ) (hlen : x.length = x'.length) (i : Nat)
+    (hagree : ∀ j (hj : j < x.length) (hj' : j < x'.length), j ≤ i → x[j] = x'[j]) :
+    (GenBnaf.transform (netOf A act dim bd Ls ljf condLinear inverter) x condition).map (·[i]?)
+      = (GenBnaf.transform (netOf A act dim bd Ls ljf condLinear inverter) x' condition).map (·[i]?) := by
+  have hne : Ls ≠ [] := by
+    intro h; rw [h] at hshapes; unfold bnafBlockShapes at hshapes; split at hshapes <;> simp at hshapes
+  rw [BnafGenPf.gen_bnaf_transform_eq_model A act dim bd Ls hne ljf condLinear inverter x condition hc,
+    BnafGenPf.gen_bnaf_transform_eq_model A act dim bd Ls hne ljf condLinear inverter x' condition hc]
+  simp only [Option.map_some]
+  exact congrArg some (bnaf_dependency act depth bd Ls hshapes condLinear (condition.getD []) x x' hlen i hagree)
+
+/-- **`bnaf_jacobian` on the GENERATED code**: the generated `transform` never fails and is a map `F` whose Jacobian is lower
+triangular with strictly positive diagonal, entry by entry (`∂F_i/∂x_j = 0` for `j > i`; `∂F_i/∂x_i` exists and is `> 0`). -/
+theorem gen_bnaf_jacobian (A : ℝ → ℝ × ℝ) (act : ℝ → ℝ) (hact : ∀ z, DifferentiableAt ℝ act z ∧ 0 < deriv act z)
+    (dim depth bd : Nat) (hbd : 0 < bd) (Ls : List (BnafLayer ℝ))
+    (hshapes : Ls.map (fun L => (L.b0, L.b1)) = bnafBlockShapes depth bd)
+    (hws : ∀ L ∈ Ls, BnafWellShaped L ∧ L.n = dim)
+    (ljf : BnafLayer ℝ → Bw.Linear ℝ → Bw.Blocks ℝ) (condLinear : Option (List (List ℝ)))
+    (inverter : List ℝ → Option (List ℝ) → List ℝ) (condition : Option (List ℝ)) (hc : condition.isSome = condLinear.isSome)
+    (hcl : ∀ C ∈ condLinear, ∀ L ∈ Ls.head?, C.length = L.b0 * dim)
+    (x : List ℝ) (hx : x.length = dim) (i : Nat) (hi : i < dim) :
+    ∃ F : List ℝ → List ℝ,
+      (∀ x, GenBnaf.transform (netOf A act dim bd Ls ljf condLinear inverter) x condition = some (F x)) ∧
+      (∀ j, i < j → ∀ t, nth (F (x.set j t)) i = nth (F x) i) ∧
+      (∀ t0, ∃ d, 0 < d ∧ HasDerivAt (fun t => nth (F (x.set i t)) i) d t0) := by
+  have hne : Ls ≠ [] := by
+    intro h; rw [h] at hshapes; unfold bnafBlockShapes at hshapes; split at hshapes <;> simp at hshapes
+  obtain ⟨h1, h2⟩ := bnaf_jacobian act hact dim depth bd hbd Ls hshapes hws condLinear (condition.getD []) hcl x hx i hi
+  exact ⟨fun x => bnafTransform act Ls condLinear x (condition.getD []), fun x =>
+    BnafGenPf.gen_bnaf_transform_eq_model A act dim bd Ls hne ljf condLinear inverter x condition hc, h1, h2⟩
+
+/-- **generated `block_autoregressive_linear` = model**: `unwrap` of the layer it builds — generated masks `block_tril_mask` /
+`block_diag_mask`, generated `.unwrap()` bodies of `Where`, `BijectionReparam(…, SoftPlus(), invert_on_init=False)`,
+`WeightNormalization`, in the nesting order of the source — is the hand model's masked, softplus-diagonal, weight-normalised
+weight `BnafLayer.unwrapW` and bias, for every world (all raw weights / biases / raw scales), key, `n_blocks`, block shape. -/
+theorem gen_block_linear_eq_model {K : Type} (W : Bw.World K ℝ) (key : K) (n b0 b1 : Nat) :
+    (GenBnaf.blockAutoregressiveLinear W key n (b0, b1)).1.unwrap = linOf (layerOfWorld W key n b0 b1) :=
+  BnafGenPf.gen_block_linear_eq_model W key n b0 b1
+
+/-- the generated `_activation_and_log_jacobian_3d` is the model's `actLogJac`: `-inf` off the block diagonals -/
+theorem gen_act_logjac_eq_model (N : Bw.Net ℝ) (dim bd : Nat) (hs : N.shape = [dim]) (hb : N.block_dim = bd) (x : List ℝ)
+    (hx : x.length = dim * bd) :
+    GenBnaf.activationAndLogJacobian3d N x
+      = some (x.map (fun z => (N.activation.transform_and_log_det z).1),
+          actLogJac dim bd (x.map fun z => (N.activation.transform_and_log_det z).2)) :=
+  BnafGenPf.gen_act_logjac_eq_model N dim bd hs hb x hx
+
+/-- kernel evaluation of the generated constructor at `ℚ` sizes: the masks inside the nest `block_autoregressive_linear(n_blocks=2,
+block_shape=(2,1))` builds, and the index list of its closure (`jnp.where(block_diag_mask, size=4)`). -/
+theorem gen_bnaf_masks_instance :
+    Gen.blockTrilMask (2, 1) 2 0 = [[true, false], [true, false], [true, true], [true, true]] ∧
+    Gen.blockDiagMask (2, 1) 2 = [[true, false], [true, false], [false, true], [false, true]] ∧
+    Bw.whereIdx (Gen.blockDiagMask (2, 1) 2) 4 = [(0, 0), (1, 0), (2, 1), (3, 1)] := by
+  decide +kernel
+
+end BnafGen
+/-! ## ===== END BnafGen ===== -/
 
 end C09
